@@ -248,50 +248,17 @@ func init() {
 		"[(*py.Slice).GetIndices#4 == nil && p1.(*Slice) && ret#2:slice.GetIndices(len(recv.Items)) != 1 && ret#2:slice.GetIndices(len(recv.Items)) <= -1] p1.GetIndices(len(recv.Items)); LOOP(for k1 = 0; k1 < slicelength; k1++){[] recv.DelItem(start + k1 * step - k1) } -> None, nil",
 		"[(*py.Slice).GetIndices#4 == nil && p1.(*Slice) && ret#2:slice.GetIndices(len(recv.Items)) != 1 && ret#2:slice.GetIndices(len(recv.Items)) >= 0] p1.GetIndices(len(recv.Items)); LOOP(for k1 = 0; k1 < slicelength; k1++){[] recv.DelItem(start + k1 * step - k1) } -> None, nil",
 	}
-	// in-place set operators adopt the result of the binary operator unconditionally and evaluate to the receiver  []
-	pathSpec["py|Set.inPlace"] = []string{
-		"[!(p1.(*Set)) && p2 == nil]  -> p1, nil",
-		"[p1.(*Set) && p2 == nil] recv.items = p1.items -> recv, nil",
-		"[p2 != nil]  -> nil, err!",
-	}
-	// sort comparison: items fetched, key function applied to both, then a strict less-than with the operands exchanged for reverse (not the result inverted, which is not a strict order and breaks stability)  []
-	pathSpec["py|ptrSortable.Less"] = []string{
-		"[!(cmpResult.(Bool)) && !(recv.recv.reverse) && (*py.List).M__getitem__#1 == nil && (*py.List).M__getitem__#1'2 == nil && py.Call#1 == nil && py.Call#1'2 == nil && py.Lt#1 == nil && recv.recv.keyFunc != None] recv.s.l.M__getitem__(p1); recv.s.l.M__getitem__(p2); Call(recv.s.keyFunc, composite[(*py.List).M__getitem__#0], nil); Call(recv.s.keyFunc, composite[(*py.List).M__getitem__#0'2], nil); Lt(py.Call#0, py.Call#0'2) -> false",
-		"[!(cmpResult.(Bool)) && !(recv.recv.reverse) && (*py.List).M__getitem__#1 == nil && (*py.List).M__getitem__#1'2 == nil && py.Lt#1 == nil && recv.recv.keyFunc == None] recv.s.l.M__getitem__(p1); recv.s.l.M__getitem__(p2); Lt((*py.List).M__getitem__#0, (*py.List).M__getitem__#0'2) -> false",
-		"[!(cmpResult.(Bool)) && (*py.List).M__getitem__#1 == nil && (*py.List).M__getitem__#1'2 == nil && py.Call#1 == nil && py.Call#1'2 == nil && py.Lt#1 == nil && recv.recv.keyFunc != None && recv.recv.reverse] recv.s.l.M__getitem__(p1); recv.s.l.M__getitem__(p2); Call(recv.s.keyFunc, composite[(*py.List).M__getitem__#0], nil); Call(recv.s.keyFunc, composite[(*py.List).M__getitem__#0'2], nil); Lt(py.Call#0'2, py.Call#0) -> false",
-		"[!(cmpResult.(Bool)) && (*py.List).M__getitem__#1 == nil && (*py.List).M__getitem__#1'2 == nil && py.Lt#1 == nil && recv.recv.keyFunc == None && recv.recv.reverse] recv.s.l.M__getitem__(p1); recv.s.l.M__getitem__(p2); Lt((*py.List).M__getitem__#0'2, (*py.List).M__getitem__#0) -> false",
-		"[!(recv.recv.reverse) && (*py.List).M__getitem__#1 == nil && (*py.List).M__getitem__#1'2 == nil && cmpResult.(Bool) && py.Call#1 == nil && py.Call#1'2 == nil && py.Lt#1 == nil && recv.recv.keyFunc != None] recv.s.l.M__getitem__(p1); recv.s.l.M__getitem__(p2); Call(recv.s.keyFunc, composite[(*py.List).M__getitem__#0], nil); Call(recv.s.keyFunc, composite[(*py.List).M__getitem__#0'2], nil); Lt(py.Call#0, py.Call#0'2) -> py.Lt#0",
-		"[!(recv.recv.reverse) && (*py.List).M__getitem__#1 == nil && (*py.List).M__getitem__#1'2 == nil && cmpResult.(Bool) && py.Lt#1 == nil && recv.recv.keyFunc == None] recv.s.l.M__getitem__(p1); recv.s.l.M__getitem__(p2); Lt((*py.List).M__getitem__#0, (*py.List).M__getitem__#0'2) -> py.Lt#0",
-		"[!(recv.recv.reverse) && (*py.List).M__getitem__#1 == nil && (*py.List).M__getitem__#1'2 == nil && py.Call#1 == nil && py.Call#1'2 == nil && py.Lt#1 != nil && recv.recv.firstErr != nil && recv.recv.keyFunc != None] recv.s.l.M__getitem__(p1); recv.s.l.M__getitem__(p2); Call(recv.s.keyFunc, composite[(*py.List).M__getitem__#0], nil); Call(recv.s.keyFunc, composite[(*py.List).M__getitem__#0'2], nil); Lt(py.Call#0, py.Call#0'2) -> false",
-		"[!(recv.recv.reverse) && (*py.List).M__getitem__#1 == nil && (*py.List).M__getitem__#1'2 == nil && py.Call#1 == nil && py.Call#1'2 == nil && py.Lt#1 != nil && recv.recv.firstErr == nil && recv.recv.keyFunc != None] recv.s.l.M__getitem__(p1); recv.s.l.M__getitem__(p2); Call(recv.s.keyFunc, composite[(*py.List).M__getitem__#0], nil); Call(recv.s.keyFunc, composite[(*py.List).M__getitem__#0'2], nil); Lt(py.Call#0, py.Call#0'2); recv.recv.firstErr = err! -> false",
-		"[!(recv.recv.reverse) && (*py.List).M__getitem__#1 == nil && (*py.List).M__getitem__#1'2 == nil && py.Lt#1 != nil && recv.recv.firstErr != nil && recv.recv.keyFunc == None] recv.s.l.M__getitem__(p1); recv.s.l.M__getitem__(p2); Lt((*py.List).M__getitem__#0, (*py.List).M__getitem__#0'2) -> false",
-		"[!(recv.recv.reverse) && (*py.List).M__getitem__#1 == nil && (*py.List).M__getitem__#1'2 == nil && py.Lt#1 != nil && recv.recv.firstErr == nil && recv.recv.keyFunc == None] recv.s.l.M__getitem__(p1); recv.s.l.M__getitem__(p2); Lt((*py.List).M__getitem__#0, (*py.List).M__getitem__#0'2); recv.recv.firstErr = err! -> false",
-		"[(*py.List).M__getitem__#1 != nil && recv.recv.firstErr != nil] recv.s.l.M__getitem__(p1) -> false",
-		"[(*py.List).M__getitem__#1 != nil && recv.recv.firstErr == nil] recv.s.l.M__getitem__(p1); recv.recv.firstErr = err! -> false",
-		"[(*py.List).M__getitem__#1 == nil && (*py.List).M__getitem__#1'2 != nil && recv.recv.firstErr != nil] recv.s.l.M__getitem__(p1); recv.s.l.M__getitem__(p2) -> false",
-		"[(*py.List).M__getitem__#1 == nil && (*py.List).M__getitem__#1'2 != nil && recv.recv.firstErr == nil] recv.s.l.M__getitem__(p1); recv.s.l.M__getitem__(p2); recv.recv.firstErr = err! -> false",
-		"[(*py.List).M__getitem__#1 == nil && (*py.List).M__getitem__#1'2 == nil && cmpResult.(Bool) && py.Call#1 == nil && py.Call#1'2 == nil && py.Lt#1 == nil && recv.recv.keyFunc != None && recv.recv.reverse] recv.s.l.M__getitem__(p1); recv.s.l.M__getitem__(p2); Call(recv.s.keyFunc, composite[(*py.List).M__getitem__#0], nil); Call(recv.s.keyFunc, composite[(*py.List).M__getitem__#0'2], nil); Lt(py.Call#0'2, py.Call#0) -> py.Lt#0",
-		"[(*py.List).M__getitem__#1 == nil && (*py.List).M__getitem__#1'2 == nil && cmpResult.(Bool) && py.Lt#1 == nil && recv.recv.keyFunc == None && recv.recv.reverse] recv.s.l.M__getitem__(p1); recv.s.l.M__getitem__(p2); Lt((*py.List).M__getitem__#0'2, (*py.List).M__getitem__#0) -> py.Lt#0",
-		"[(*py.List).M__getitem__#1 == nil && (*py.List).M__getitem__#1'2 == nil && py.Call#1 != nil && recv.recv.firstErr != nil && recv.recv.keyFunc != None] recv.s.l.M__getitem__(p1); recv.s.l.M__getitem__(p2); Call(recv.s.keyFunc, composite[(*py.List).M__getitem__#0], nil) -> false",
-		"[(*py.List).M__getitem__#1 == nil && (*py.List).M__getitem__#1'2 == nil && py.Call#1 != nil && recv.recv.firstErr == nil && recv.recv.keyFunc != None] recv.s.l.M__getitem__(p1); recv.s.l.M__getitem__(p2); Call(recv.s.keyFunc, composite[(*py.List).M__getitem__#0], nil); recv.recv.firstErr = err! -> false",
-		"[(*py.List).M__getitem__#1 == nil && (*py.List).M__getitem__#1'2 == nil && py.Call#1 == nil && py.Call#1'2 != nil && recv.recv.firstErr != nil && recv.recv.keyFunc != None] recv.s.l.M__getitem__(p1); recv.s.l.M__getitem__(p2); Call(recv.s.keyFunc, composite[(*py.List).M__getitem__#0], nil); Call(recv.s.keyFunc, composite[(*py.List).M__getitem__#0'2], nil) -> false",
-		"[(*py.List).M__getitem__#1 == nil && (*py.List).M__getitem__#1'2 == nil && py.Call#1 == nil && py.Call#1'2 != nil && recv.recv.firstErr == nil && recv.recv.keyFunc != None] recv.s.l.M__getitem__(p1); recv.s.l.M__getitem__(p2); Call(recv.s.keyFunc, composite[(*py.List).M__getitem__#0], nil); Call(recv.s.keyFunc, composite[(*py.List).M__getitem__#0'2], nil); recv.recv.firstErr = err! -> false",
-		"[(*py.List).M__getitem__#1 == nil && (*py.List).M__getitem__#1'2 == nil && py.Call#1 == nil && py.Call#1'2 == nil && py.Lt#1 != nil && recv.recv.firstErr != nil && recv.recv.keyFunc != None && recv.recv.reverse] recv.s.l.M__getitem__(p1); recv.s.l.M__getitem__(p2); Call(recv.s.keyFunc, composite[(*py.List).M__getitem__#0], nil); Call(recv.s.keyFunc, composite[(*py.List).M__getitem__#0'2], nil); Lt(py.Call#0'2, py.Call#0) -> false",
-		"[(*py.List).M__getitem__#1 == nil && (*py.List).M__getitem__#1'2 == nil && py.Call#1 == nil && py.Call#1'2 == nil && py.Lt#1 != nil && recv.recv.firstErr == nil && recv.recv.keyFunc != None && recv.recv.reverse] recv.s.l.M__getitem__(p1); recv.s.l.M__getitem__(p2); Call(recv.s.keyFunc, composite[(*py.List).M__getitem__#0], nil); Call(recv.s.keyFunc, composite[(*py.List).M__getitem__#0'2], nil); Lt(py.Call#0'2, py.Call#0); recv.recv.firstErr = err! -> false",
-		"[(*py.List).M__getitem__#1 == nil && (*py.List).M__getitem__#1'2 == nil && py.Lt#1 != nil && recv.recv.firstErr != nil && recv.recv.keyFunc == None && recv.recv.reverse] recv.s.l.M__getitem__(p1); recv.s.l.M__getitem__(p2); Lt((*py.List).M__getitem__#0'2, (*py.List).M__getitem__#0) -> false",
-		"[(*py.List).M__getitem__#1 == nil && (*py.List).M__getitem__#1'2 == nil && py.Lt#1 != nil && recv.recv.firstErr == nil && recv.recv.keyFunc == None && recv.recv.reverse] recv.s.l.M__getitem__(p1); recv.s.l.M__getitem__(p2); Lt((*py.List).M__getitem__#0'2, (*py.List).M__getitem__#0); recv.recv.firstErr = err! -> false",
-	}
 	// IMPORT_NAME: __import__ is taken from the frame's builtins and called with (name, the frame's globals, its locals or None, fromlist = TOS, level = TOS1); the module replaces TOS1; an error is handed on unchanged [ceval.c IMPORT_NAME]  []
 	pathSpec["vm|do_IMPORT_NAME"] = []string{
 		"[!(has(vm.frame.Builtins[\"__import__\"]))] ExceptionNewf(py.ImportError, \"__import__ not found\") -> err!",
-		"[!(u.(py.Int)) && has(vm.frame.Builtins[\"__import__\"]) && vm.callInternal#1 != nil && vm.frame.Locals != nil] callInternal(vm.frame.Builtins[\"__import__\"], composite[vm.frame.Code.Names[p2],vm.frame.Globals,vm.frame.Locals,slot0], nil, vm.frame) -> err!",
-		"[!(u.(py.Int)) && has(vm.frame.Builtins[\"__import__\"]) && vm.callInternal#1 != nil && vm.frame.Locals == nil] callInternal(vm.frame.Builtins[\"__import__\"], composite[vm.frame.Code.Names[p2],vm.frame.Globals,py.None,slot0], nil, vm.frame) -> err!",
-		"[!(u.(py.Int)) && has(vm.frame.Builtins[\"__import__\"]) && vm.callInternal#1 == nil && vm.frame.Locals != nil] callInternal(vm.frame.Builtins[\"__import__\"], composite[vm.frame.Code.Names[p2],vm.frame.Globals,vm.frame.Locals,slot0], nil, vm.frame) -> nil",
-		"[!(u.(py.Int)) && has(vm.frame.Builtins[\"__import__\"]) && vm.callInternal#1 == nil && vm.frame.Locals == nil] callInternal(vm.frame.Builtins[\"__import__\"], composite[vm.frame.Code.Names[p2],vm.frame.Globals,py.None,slot0], nil, vm.frame) -> nil",
-		"[has(vm.frame.Builtins[\"__import__\"]) && u.(py.Int) && vm.callInternal#1 != nil && vm.frame.Locals != nil] callInternal(vm.frame.Builtins[\"__import__\"], composite[vm.frame.Code.Names[p2],vm.frame.Globals,vm.frame.Locals,slot0,slot1], nil, vm.frame) -> err!",
-		"[has(vm.frame.Builtins[\"__import__\"]) && u.(py.Int) && vm.callInternal#1 != nil && vm.frame.Locals == nil] callInternal(vm.frame.Builtins[\"__import__\"], composite[vm.frame.Code.Names[p2],vm.frame.Globals,py.None,slot0,slot1], nil, vm.frame) -> err!",
-		"[has(vm.frame.Builtins[\"__import__\"]) && u.(py.Int) && vm.callInternal#1 == nil && vm.frame.Locals != nil] callInternal(vm.frame.Builtins[\"__import__\"], composite[vm.frame.Code.Names[p2],vm.frame.Globals,vm.frame.Locals,slot0,slot1], nil, vm.frame) -> nil",
-		"[has(vm.frame.Builtins[\"__import__\"]) && u.(py.Int) && vm.callInternal#1 == nil && vm.frame.Locals == nil] callInternal(vm.frame.Builtins[\"__import__\"], composite[vm.frame.Code.Names[p2],vm.frame.Globals,py.None,slot0,slot1], nil, vm.frame) -> nil",
+		"[!(slot1.(py.Int)) && has(vm.frame.Builtins[\"__import__\"]) && vm.callInternal#1 != nil && vm.frame.Locals != nil] callInternal(vm.frame.Builtins[\"__import__\"], composite[vm.frame.Code.Names[p2],vm.frame.Globals,vm.frame.Locals,slot0], nil, vm.frame) -> err!",
+		"[!(slot1.(py.Int)) && has(vm.frame.Builtins[\"__import__\"]) && vm.callInternal#1 != nil && vm.frame.Locals == nil] callInternal(vm.frame.Builtins[\"__import__\"], composite[vm.frame.Code.Names[p2],vm.frame.Globals,py.None,slot0], nil, vm.frame) -> err!",
+		"[!(slot1.(py.Int)) && has(vm.frame.Builtins[\"__import__\"]) && vm.callInternal#1 == nil && vm.frame.Locals != nil] callInternal(vm.frame.Builtins[\"__import__\"], composite[vm.frame.Code.Names[p2],vm.frame.Globals,vm.frame.Locals,slot0], nil, vm.frame) -> nil",
+		"[!(slot1.(py.Int)) && has(vm.frame.Builtins[\"__import__\"]) && vm.callInternal#1 == nil && vm.frame.Locals == nil] callInternal(vm.frame.Builtins[\"__import__\"], composite[vm.frame.Code.Names[p2],vm.frame.Globals,py.None,slot0], nil, vm.frame) -> nil",
+		"[has(vm.frame.Builtins[\"__import__\"]) && slot1.(py.Int) && vm.callInternal#1 != nil && vm.frame.Locals != nil] callInternal(vm.frame.Builtins[\"__import__\"], composite[vm.frame.Code.Names[p2],vm.frame.Globals,vm.frame.Locals,slot0,slot1], nil, vm.frame) -> err!",
+		"[has(vm.frame.Builtins[\"__import__\"]) && slot1.(py.Int) && vm.callInternal#1 != nil && vm.frame.Locals == nil] callInternal(vm.frame.Builtins[\"__import__\"], composite[vm.frame.Code.Names[p2],vm.frame.Globals,py.None,slot0,slot1], nil, vm.frame) -> err!",
+		"[has(vm.frame.Builtins[\"__import__\"]) && slot1.(py.Int) && vm.callInternal#1 == nil && vm.frame.Locals != nil] callInternal(vm.frame.Builtins[\"__import__\"], composite[vm.frame.Code.Names[p2],vm.frame.Globals,vm.frame.Locals,slot0,slot1], nil, vm.frame) -> nil",
+		"[has(vm.frame.Builtins[\"__import__\"]) && slot1.(py.Int) && vm.callInternal#1 == nil && vm.frame.Locals == nil] callInternal(vm.frame.Builtins[\"__import__\"], composite[vm.frame.Code.Names[p2],vm.frame.Globals,py.None,slot0,slot1], nil, vm.frame) -> nil",
 	}
 	// IMPORT_FROM: the attribute named by the operand is read from the module on top of the stack, which stays there, and pushed; only AttributeError becomes ImportError, any other error is handed on unchanged [ceval.c IMPORT_FROM]  []
 	pathSpec["vm|do_IMPORT_FROM"] = []string{
@@ -340,5 +307,38 @@ func init() {
 		"[!(math.IsInf(p1, 0)) && !(math.IsNaN(p1))] IsNaN(p1); IsInf(p1, 0); L1.SetFloat64(p1); L2.SetInt(p2); (*math/big.Float).SetFloat64#0.Cmp((*math/big.Float).SetInt#0) -> ret:new(big.Float).SetFloat64(float64(p1)).Cmp(new(big.Float).SetInt(p2)), 0, true",
 		"[!(math.IsNaN(p1)) && math.IsInf(p1, 0)] IsNaN(p1); IsInf(p1, 0) -> p1, 0, true",
 		"[math.IsNaN(p1)] IsNaN(p1) -> p1, 0, true",
+	}
+	// in-place set operators adopt the result of the binary operator unconditionally and evaluate to the receiver  []
+	pathSpec["py|Set.inPlace"] = []string{
+		"[!(p1.(*Set)) && p2 == nil]  -> p1, nil",
+		"[p1.(*Set) && p2 == nil] recv.items = p1.items -> recv, nil",
+		"[p2 != nil]  -> nil, err!",
+	}
+	// sort comparison: items fetched, key function applied to both, then a strict less-than with the operands exchanged for reverse (not the result inverted, which is not a strict order and breaks stability)  []
+	pathSpec["py|ptrSortable.Less"] = []string{
+		"[!(py.Lt#0.(Bool)) && !(recv.recv.reverse) && (*py.List).M__getitem__#1 == nil && (*py.List).M__getitem__#1'2 == nil && py.Call#1 == nil && py.Call#1'2 == nil && py.Lt#1 == nil && recv.recv.keyFunc != None] recv.s.l.M__getitem__(p1); recv.s.l.M__getitem__(p2); Call(recv.s.keyFunc, composite[(*py.List).M__getitem__#0], nil); Call(recv.s.keyFunc, composite[(*py.List).M__getitem__#0'2], nil); Lt(py.Call#0, py.Call#0'2) -> false",
+		"[!(py.Lt#0.(Bool)) && !(recv.recv.reverse) && (*py.List).M__getitem__#1 == nil && (*py.List).M__getitem__#1'2 == nil && py.Lt#1 == nil && recv.recv.keyFunc == None] recv.s.l.M__getitem__(p1); recv.s.l.M__getitem__(p2); Lt((*py.List).M__getitem__#0, (*py.List).M__getitem__#0'2) -> false",
+		"[!(py.Lt#0.(Bool)) && (*py.List).M__getitem__#1 == nil && (*py.List).M__getitem__#1'2 == nil && py.Call#1 == nil && py.Call#1'2 == nil && py.Lt#1 == nil && recv.recv.keyFunc != None && recv.recv.reverse] recv.s.l.M__getitem__(p1); recv.s.l.M__getitem__(p2); Call(recv.s.keyFunc, composite[(*py.List).M__getitem__#0], nil); Call(recv.s.keyFunc, composite[(*py.List).M__getitem__#0'2], nil); Lt(py.Call#0'2, py.Call#0) -> false",
+		"[!(py.Lt#0.(Bool)) && (*py.List).M__getitem__#1 == nil && (*py.List).M__getitem__#1'2 == nil && py.Lt#1 == nil && recv.recv.keyFunc == None && recv.recv.reverse] recv.s.l.M__getitem__(p1); recv.s.l.M__getitem__(p2); Lt((*py.List).M__getitem__#0'2, (*py.List).M__getitem__#0) -> false",
+		"[!(recv.recv.reverse) && (*py.List).M__getitem__#1 == nil && (*py.List).M__getitem__#1'2 == nil && py.Call#1 == nil && py.Call#1'2 == nil && py.Lt#0.(Bool) && py.Lt#1 == nil && recv.recv.keyFunc != None] recv.s.l.M__getitem__(p1); recv.s.l.M__getitem__(p2); Call(recv.s.keyFunc, composite[(*py.List).M__getitem__#0], nil); Call(recv.s.keyFunc, composite[(*py.List).M__getitem__#0'2], nil); Lt(py.Call#0, py.Call#0'2) -> py.Lt#0",
+		"[!(recv.recv.reverse) && (*py.List).M__getitem__#1 == nil && (*py.List).M__getitem__#1'2 == nil && py.Call#1 == nil && py.Call#1'2 == nil && py.Lt#1 != nil && recv.recv.firstErr != nil && recv.recv.keyFunc != None] recv.s.l.M__getitem__(p1); recv.s.l.M__getitem__(p2); Call(recv.s.keyFunc, composite[(*py.List).M__getitem__#0], nil); Call(recv.s.keyFunc, composite[(*py.List).M__getitem__#0'2], nil); Lt(py.Call#0, py.Call#0'2) -> false",
+		"[!(recv.recv.reverse) && (*py.List).M__getitem__#1 == nil && (*py.List).M__getitem__#1'2 == nil && py.Call#1 == nil && py.Call#1'2 == nil && py.Lt#1 != nil && recv.recv.firstErr == nil && recv.recv.keyFunc != None] recv.s.l.M__getitem__(p1); recv.s.l.M__getitem__(p2); Call(recv.s.keyFunc, composite[(*py.List).M__getitem__#0], nil); Call(recv.s.keyFunc, composite[(*py.List).M__getitem__#0'2], nil); Lt(py.Call#0, py.Call#0'2); recv.recv.firstErr = err! -> false",
+		"[!(recv.recv.reverse) && (*py.List).M__getitem__#1 == nil && (*py.List).M__getitem__#1'2 == nil && py.Lt#0.(Bool) && py.Lt#1 == nil && recv.recv.keyFunc == None] recv.s.l.M__getitem__(p1); recv.s.l.M__getitem__(p2); Lt((*py.List).M__getitem__#0, (*py.List).M__getitem__#0'2) -> py.Lt#0",
+		"[!(recv.recv.reverse) && (*py.List).M__getitem__#1 == nil && (*py.List).M__getitem__#1'2 == nil && py.Lt#1 != nil && recv.recv.firstErr != nil && recv.recv.keyFunc == None] recv.s.l.M__getitem__(p1); recv.s.l.M__getitem__(p2); Lt((*py.List).M__getitem__#0, (*py.List).M__getitem__#0'2) -> false",
+		"[!(recv.recv.reverse) && (*py.List).M__getitem__#1 == nil && (*py.List).M__getitem__#1'2 == nil && py.Lt#1 != nil && recv.recv.firstErr == nil && recv.recv.keyFunc == None] recv.s.l.M__getitem__(p1); recv.s.l.M__getitem__(p2); Lt((*py.List).M__getitem__#0, (*py.List).M__getitem__#0'2); recv.recv.firstErr = err! -> false",
+		"[(*py.List).M__getitem__#1 != nil && recv.recv.firstErr != nil] recv.s.l.M__getitem__(p1) -> false",
+		"[(*py.List).M__getitem__#1 != nil && recv.recv.firstErr == nil] recv.s.l.M__getitem__(p1); recv.recv.firstErr = err! -> false",
+		"[(*py.List).M__getitem__#1 == nil && (*py.List).M__getitem__#1'2 != nil && recv.recv.firstErr != nil] recv.s.l.M__getitem__(p1); recv.s.l.M__getitem__(p2) -> false",
+		"[(*py.List).M__getitem__#1 == nil && (*py.List).M__getitem__#1'2 != nil && recv.recv.firstErr == nil] recv.s.l.M__getitem__(p1); recv.s.l.M__getitem__(p2); recv.recv.firstErr = err! -> false",
+		"[(*py.List).M__getitem__#1 == nil && (*py.List).M__getitem__#1'2 == nil && py.Call#1 != nil && recv.recv.firstErr != nil && recv.recv.keyFunc != None] recv.s.l.M__getitem__(p1); recv.s.l.M__getitem__(p2); Call(recv.s.keyFunc, composite[(*py.List).M__getitem__#0], nil) -> false",
+		"[(*py.List).M__getitem__#1 == nil && (*py.List).M__getitem__#1'2 == nil && py.Call#1 != nil && recv.recv.firstErr == nil && recv.recv.keyFunc != None] recv.s.l.M__getitem__(p1); recv.s.l.M__getitem__(p2); Call(recv.s.keyFunc, composite[(*py.List).M__getitem__#0], nil); recv.recv.firstErr = err! -> false",
+		"[(*py.List).M__getitem__#1 == nil && (*py.List).M__getitem__#1'2 == nil && py.Call#1 == nil && py.Call#1'2 != nil && recv.recv.firstErr != nil && recv.recv.keyFunc != None] recv.s.l.M__getitem__(p1); recv.s.l.M__getitem__(p2); Call(recv.s.keyFunc, composite[(*py.List).M__getitem__#0], nil); Call(recv.s.keyFunc, composite[(*py.List).M__getitem__#0'2], nil) -> false",
+		"[(*py.List).M__getitem__#1 == nil && (*py.List).M__getitem__#1'2 == nil && py.Call#1 == nil && py.Call#1'2 != nil && recv.recv.firstErr == nil && recv.recv.keyFunc != None] recv.s.l.M__getitem__(p1); recv.s.l.M__getitem__(p2); Call(recv.s.keyFunc, composite[(*py.List).M__getitem__#0], nil); Call(recv.s.keyFunc, composite[(*py.List).M__getitem__#0'2], nil); recv.recv.firstErr = err! -> false",
+		"[(*py.List).M__getitem__#1 == nil && (*py.List).M__getitem__#1'2 == nil && py.Call#1 == nil && py.Call#1'2 == nil && py.Lt#0.(Bool) && py.Lt#1 == nil && recv.recv.keyFunc != None && recv.recv.reverse] recv.s.l.M__getitem__(p1); recv.s.l.M__getitem__(p2); Call(recv.s.keyFunc, composite[(*py.List).M__getitem__#0], nil); Call(recv.s.keyFunc, composite[(*py.List).M__getitem__#0'2], nil); Lt(py.Call#0'2, py.Call#0) -> py.Lt#0",
+		"[(*py.List).M__getitem__#1 == nil && (*py.List).M__getitem__#1'2 == nil && py.Call#1 == nil && py.Call#1'2 == nil && py.Lt#1 != nil && recv.recv.firstErr != nil && recv.recv.keyFunc != None && recv.recv.reverse] recv.s.l.M__getitem__(p1); recv.s.l.M__getitem__(p2); Call(recv.s.keyFunc, composite[(*py.List).M__getitem__#0], nil); Call(recv.s.keyFunc, composite[(*py.List).M__getitem__#0'2], nil); Lt(py.Call#0'2, py.Call#0) -> false",
+		"[(*py.List).M__getitem__#1 == nil && (*py.List).M__getitem__#1'2 == nil && py.Call#1 == nil && py.Call#1'2 == nil && py.Lt#1 != nil && recv.recv.firstErr == nil && recv.recv.keyFunc != None && recv.recv.reverse] recv.s.l.M__getitem__(p1); recv.s.l.M__getitem__(p2); Call(recv.s.keyFunc, composite[(*py.List).M__getitem__#0], nil); Call(recv.s.keyFunc, composite[(*py.List).M__getitem__#0'2], nil); Lt(py.Call#0'2, py.Call#0); recv.recv.firstErr = err! -> false",
+		"[(*py.List).M__getitem__#1 == nil && (*py.List).M__getitem__#1'2 == nil && py.Lt#0.(Bool) && py.Lt#1 == nil && recv.recv.keyFunc == None && recv.recv.reverse] recv.s.l.M__getitem__(p1); recv.s.l.M__getitem__(p2); Lt((*py.List).M__getitem__#0'2, (*py.List).M__getitem__#0) -> py.Lt#0",
+		"[(*py.List).M__getitem__#1 == nil && (*py.List).M__getitem__#1'2 == nil && py.Lt#1 != nil && recv.recv.firstErr != nil && recv.recv.keyFunc == None && recv.recv.reverse] recv.s.l.M__getitem__(p1); recv.s.l.M__getitem__(p2); Lt((*py.List).M__getitem__#0'2, (*py.List).M__getitem__#0) -> false",
+		"[(*py.List).M__getitem__#1 == nil && (*py.List).M__getitem__#1'2 == nil && py.Lt#1 != nil && recv.recv.firstErr == nil && recv.recv.keyFunc == None && recv.recv.reverse] recv.s.l.M__getitem__(p1); recv.s.l.M__getitem__(p2); Lt((*py.List).M__getitem__#0'2, (*py.List).M__getitem__#0); recv.recv.firstErr = err! -> false",
 	}
 }
